@@ -38,6 +38,7 @@ def proj(st, rk, wk=None):
         pend[w] = pc
     return {
         "allocs": 0,
+        "copies": 0,
         "chain": chain_of(st),
         "cbnext": {w: st["nxt"][w] for w, k in (wk or {}).items() if k == "cb"},
         "owner": owner,
@@ -70,11 +71,14 @@ def fix_empty(st):
     return st
 
 
-def run_mix(ctx, rp, rmix, wmix, tag, max_paths=None, extra_random=0):
+def run_mix(ctx, rp, rmix, wmix, tag, max_paths=None, extra_random=0, bind=False):
     consts, rk, wk = mix_constants(rmix, wmix)
 
     def hdr(k, st0):
-        return {"R": rk, "W": wk, "form": k % 6}
+        h = {"R": rk, "W": wk, "form": k % 6}
+        if bind:
+            h["bind"] = True
+        return h
 
     def pj(st):
         return proj(fix_empty(dict(st)), rk, wk)
@@ -121,7 +125,13 @@ def build(ctx):
                                 sanitize=not ctx.quick)
 
 
-def run_mixes(ctx, rp, jobs, max_paths=None, par=6):
+def build_big(ctx):
+    """the same replayer over a 64-byte tracked payload type (integrity checked by every reader, copies counted)"""
+    return vlib.compile_harness(os.path.join(vlib.VERIF, "harness/future_replay.cpp"), "future_replay_big",
+                                sanitize=not ctx.quick, extra_flags=["-DPAYLOAD_BIG"])
+
+
+def run_mixes(ctx, rp, jobs, max_paths=None, par=6, tagp="m", bind=False):
     """jobs: list of (rmix, wmix); TLC + replay per mix, several mixes in parallel"""
     from concurrent.futures import ThreadPoolExecutor
     errs = []
@@ -131,7 +141,7 @@ def run_mixes(ctx, rp, jobs, max_paths=None, par=6):
             return
         r, w = jobs[k]
         try:
-            run_mix(ctx, rp, r, w, "m%d" % k, max_paths=max_paths)
+            run_mix(ctx, rp, r, w, "%s%d" % (tagp, k), max_paths=max_paths, bind=bind)
         except Exception as e:   # re-raised in the main thread
             errs.append(e)
     with ThreadPoolExecutor(max_workers=par) as ex:
@@ -201,6 +211,7 @@ def proj_fine(st, rk, wk):
     pend.update({w: fine_pend(pc) for w, pc in (st["wpc"] or {}).items()})
     return {
         "allocs": 0,
+        "copies": 0,
         "chain": chain_of(st),
         "cbnext": {w: st["nxt"][w] for w, k in wk.items() if k == "cb"},
         "owner": owner,
